@@ -116,6 +116,9 @@ pub fn c02_quick() -> Vec<(Scenario, bool)> {
     // exactly at the past-epoch window (5) and a tight configured window
     v.push(late_message(5, 5));
     v.push(late_message(2, 2));
+    // the two windows are independent settings: a message three epochs late, inside the past-epoch window (5), with a snapshot
+    // retention of 1 (seeded change C02-11: a joiner's past-epoch window clipped to the retention)
+    v.push((with_retention(late_message(3, 5).0, 1), true));
     v.push(ratchet_window(3, 4, 4));
     v
 }
